@@ -104,6 +104,17 @@ func (a *Allocation) AddPermission(perms *Permission) {
 
 	perms.allocation = a
 	a.permissionsLock.Lock()
+	select {
+	case <-a.closed:
+		// The allocation has ended while the request was in progress (e.g.
+		// during a slow callback for another peer of the same request). Close
+		// has taken, or is about to take, its list of permissions: one added
+		// now would stay behind with its timer running.
+		a.permissionsLock.Unlock()
+
+		return
+	default:
+	}
 	a.permissions[fingerprint] = perms
 	// Arm the lifetime timer before the permission becomes visible: a
 	// concurrent Close (allocation expiry during the OnPermissionCreated
@@ -175,6 +186,13 @@ func (a *Allocation) AddChannelBind(chanBind *ChannelBind, channelLifetime, perm
 	if channelByNumber == nil {
 		a.channelBindingsLock.Lock()
 		defer a.channelBindingsLock.Unlock()
+
+		select {
+		case <-a.closed:
+			// The allocation has ended meanwhile: nothing is added to it.
+			return nil
+		default:
+		}
 
 		chanBind.allocation = a
 		a.channelBindings = append(a.channelBindings, chanBind)
